@@ -21,30 +21,37 @@ def parseInts (xs : List String) : Option (List Int) :=
     | some v, some l => some (v :: l)
     | _, _ => none) (some [])
 
-/-- steps of a `cons` op: `c<time>` = Consensus.ChangeView, `t<time>` = Consensus.TryChangeView. -/
+/-- one step of a `cons` op: `c<time>` = Consensus.ChangeView (true), `t<time>` = Consensus.TryChangeView. -/
+def parseStep (x : String) : Option (Bool × Int) :=
+  match x.toList with
+  | 'c' :: rest => (int? (String.ofList rest)).map (fun t => (true, t))
+  | 't' :: rest => (int? (String.ofList rest)).map (fun t => (false, t))
+  | _ => none
+
+def parseSteps (xs : List String) : Option (List (Bool × Int)) :=
+  xs.foldr (fun x acc => match parseStep x, acc with
+    | some v, some l => some (v :: l)
+    | _, _ => none) (some [])
+
 def runCons (forkH height : Nat) (running : Bool) (tol : Int) (n me : Nat) :
-    VState → List String → List String → Option (List String)
+    VState → List (Bool × Int) → List String → Option (List String)
   | _, [], acc => some acc.reverse
-  | s, x :: xs, acc =>
-    let kind := x.take 1
-    match int? (x.drop 1) with
+  | s, (isChange, t) :: xs, acc =>
+    let r := if isChange then consChangeView forkH height tol n me s t
+             else consTryChangeView forkH height running tol n me s t
+    match r with
+    | some s' => runCons forkH height running tol n me s' xs (fmtState s' :: acc)
     | none => none
-    | some t =>
-      let r := if kind = "c" then consChangeView forkH height tol n me s t
-               else consTryChangeView forkH height running tol n me s t
-      match r with
-      | some s' => runCons forkH height running tol n me s' xs (fmtState s' :: acc)
-      | none => none
 
 def stepC26 : List String → String
   | "cons" :: forkH :: height :: running :: tol :: n :: me :: off :: steps =>
       match nat? forkH, nat? height, nat? running, int? tol, nat? n, nat? me, nat? off with
       | some f, some h, some r, some tol, some n, some me, some off =>
-        if steps.all (fun x => (x.take 1 = "c" || x.take 1 = "t") && (int? (x.drop 1)).isSome) then
-          match runCons f h (r != 0) tol n me ⟨off, 0, false⟩ steps [] with
+        match parseSteps steps with
+        | some steps => match runCons f h (r != 0) tol n me ⟨off, 0, false⟩ steps [] with
           | some outs => " ".intercalate outs
           | none => "panic"
-        else "bad-op"
+        | none => "bad-op"
       | _, _, _, _, _, _, _ => "bad-op"
   | ["v0", tol, d] => match int? tol, int? d with
       | some tol, some d => fmtOut (offsetV0 tol d)
